@@ -610,27 +610,37 @@ func ruleK3(c *Ctx, id string) {
 		}
 		px, _ := stripConv(br.Cond.X).(*ssa.Parameter)
 		py, _ := stripConv(br.Cond.Y).(*ssa.Parameter)
-		// the true side must lead to panic
-		leadsPanic := false
-		seen := map[*ssa.BasicBlock]bool{}
-		var walk func(b *ssa.BasicBlock, d int)
-		walk = func(b *ssa.BasicBlock, d int) {
-			if seen[b] || d > 4 {
-				return
-			}
-			seen[b] = true
-			if isPanicExit(b) {
-				leadsPanic = true
-			}
-			for _, s := range b.Succs {
-				if _, isIf := b.Instrs[len(b.Instrs)-1].(*ssa.If); isIf && s == b.Succs[1] && b != br.Block {
-					continue
+		// one side must lead to the panic: the true side of the refusing test, or the false side of the accepting
+		// one ("if !(n < K && ...) { panic }" branches on n < K)
+		toPanic := func(start *ssa.BasicBlock) bool {
+			leads := false
+			seen := map[*ssa.BasicBlock]bool{}
+			var walk func(b *ssa.BasicBlock, d int)
+			walk = func(b *ssa.BasicBlock, d int) {
+				if seen[b] || d > 4 {
+					return
 				}
-				walk(s, d+1)
+				seen[b] = true
+				if isPanicExit(b) {
+					leads = true
+				}
+				for _, s := range b.Succs {
+					if _, isIf := b.Instrs[len(b.Instrs)-1].(*ssa.If); isIf && b != br.Block {
+						continue // only straight to the panic, not through further tests
+					}
+					walk(s, d+1)
+				}
 			}
+			walk(start, 0)
+			return leads
 		}
-		walk(br.True, 0)
-		if !leadsPanic {
+		op := br.Cond.Op
+		tP, fP := toPanic(br.True), toPanic(br.False)
+		switch {
+		case tP && !fP:
+		case fP && !tP:
+			op = negOp(op)
+		default:
 			continue
 		}
 		pname := func(p *ssa.Parameter) string {
@@ -643,9 +653,9 @@ func ruleK3(c *Ctx, id string) {
 			return "?"
 		}
 		if px != nil && py != nil {
-			conds = append(conds, pname(px)+br.Cond.Op.String()+pname(py))
+			conds = append(conds, pname(px)+op.String()+pname(py), pname(py)+flipOp(op).String()+pname(px))
 		} else if px != nil {
-			conds = append(conds, pname(px)+br.Cond.Op.String()+"K")
+			conds = append(conds, pname(px)+op.String()+"K")
 		}
 	}
 	has := func(s string) bool {
